@@ -29,7 +29,9 @@ SPEC = {
 
 LATT = [None, (4.0,), (4.0, 6.0), (3.0, 4.0, 5.0), (4.1, 5.2, 6.3, 100.0), (3.0, 3.0, 5.0, 120), (4.1, 5.2, 6.3, 80, 95, 100),
         ("Cubic", 5.0), ("Tetragonal", 4.0, 6.0), ("Hexagonal", 3.0, 5.0), ("Orthorhombic", 3.0, 4.0, 5.0), ("Rhombohedral", 4.0, 75.0),
-        ("Monoclinic", 4.0, 5.0, 6.0, 100.0), ("Triclinic", 4.1, 5.2, 6.3, 80, 95, 100)]
+        ("Monoclinic", 4.0, 5.0, 6.0, 100.0), ("Triclinic", 4.1, 5.2, 6.3, 80, 95, 100),
+        # the same kinds of cell typed in whole numbers (Python ints)
+        (4,), (3, 4, 5), (4, 5, 6, 100), (4, 5, 6, 80, 95, 100), ("Hexagonal", 3, 5), ("Rhombohedral", 4, 75), ("Triclinic", 4, 5, 6, 80, 95, 100)]
 TAGS = ["a", "refl one", "t-2", "é", ""]
 
 
